@@ -7,7 +7,7 @@ def is_missing(y, ml):
     y = np.asarray(y)
     if ml is None:
         return np.array([v is None for v in y.ravel()], dtype=bool).reshape(y.shape)
-    if isinstance(ml, float) and ml != ml:
+    if isinstance(ml, (float, np.floating)) and ml != ml:      # NaN of any floating type
         if y.dtype.kind in "fc":
             return np.isnan(y)
         if y.dtype.kind in "iub":
